@@ -46,7 +46,7 @@ pub fn run(rep: &mut Report, tier: &str, seed: u64) {
     let (n_programs, limit) = if tier == "thorough" { (500, 120) } else { (50, 24) };
     let mut runner = Runner::new("C08");
     campaign(rep, &mut runner, seed, n_programs, 2, true,
-        &|pi, r| Opts { fragment: true, fault_pct: if pi % 4 == 3 { 100 } else { 0 }, max_stanzas: 4, allow_print: false, universal: r.chance(1, 2), probe: false, scoped_heavy: pi % 3 == 0 },
+        &|pi, r| Opts { fragment: true, fault_pct: if pi % 4 == 3 { 100 } else { 0 }, max_stanzas: 4, allow_print: false, universal: r.chance(1, 2), probe: false, scoped_heavy: pi % 3 == 0, keywordish_names: false },
         &mut |rep, runner, case, r, _pi| {
             let globals = crate::props::common::supply_globals(r, &case.loaded.program);
             let cfg = RunCfg { lazy: true, globals: globals.clone(), outer_globals: vec![], debug: None, cancel_at: None };
